@@ -255,3 +255,55 @@ func VBuildPath(ring Path64, reverse, isOpen bool) (Path64, bool) {
 	ok := c.buildPath(op, reverse, isOpen, &path)
 	return path, ok
 }
+
+// VRec describes one output record of a synthetic record table (tree-builder probe): its owner
+// (-1: none), its splits (SplitsNil: the slice is nil), whether it has points, and the rectangle
+// its ring runs around.
+type VRec struct {
+	Owner     int
+	Splits    []int
+	SplitsNil bool
+	HasPts    bool
+	Rect      Rect64
+}
+
+// VBuildTree builds the record table, runs the real buildTree and returns for every record the
+// index of the record whose tree node is its node's parent (-1: the root, -2: not placed).
+func VBuildTree(recs []VRec) []int {
+	c := newClipperBase()
+	c.usingPolyTree = true
+	for range recs {
+		c.newOutRec()
+	}
+	for i, r := range recs {
+		o := c.outrecList[i]
+		if r.Owner >= 0 {
+			o.owner = c.outrecList[r.Owner]
+		}
+		if !r.SplitsNil {
+			o.splits = append([]int{}, r.Splits...)
+		}
+		if r.HasPts {
+			o.pts = vSynthRing(o, r.Rect.AsPath())
+		}
+	}
+	root := NewPolyPathBase(nil)
+	var open Paths64
+	c.buildTree(root, &open)
+	node := map[*PolyPathBase]int{root: -1}
+	for i, o := range c.outrecList {
+		if i < len(recs) && o.polypath != nil {
+			node[o.polypath] = i
+		}
+	}
+	out := make([]int, len(recs))
+	for i := range recs {
+		o := c.outrecList[i]
+		if o.polypath == nil {
+			out[i] = -2
+		} else {
+			out[i] = node[o.polypath.parent]
+		}
+	}
+	return out
+}
